@@ -18,10 +18,11 @@ import (
 	"strconv"
 	"strings"
 	"sync"
+	"sync/atomic"
 	"time"
 
-	"verif/props/core"
 	_ "verif/props/all"
+	"verif/props/core"
 	"verif/vsched"
 )
 
@@ -88,6 +89,8 @@ func worker() {
 			enc.Encode(map[string]any{"capped": true, "next": i})
 			break
 		}
+		enc.Encode(map[string]any{"start": i})
+		w.Flush()
 		r := &core.ScnResult{Index: i}
 		p.Run(tier, i, r)
 		enc.Encode(r)
@@ -217,7 +220,43 @@ func master() int {
 			sc := bufio.NewScanner(out)
 			sc.Buffer(make([]byte, 1<<20), 1<<28)
 			sawDone := false
+			// watchdog: a worker that reports nothing for a long time has a thread blocked outside the scheduler's control
+			// (the scheduler itself detects deadlocks among managed threads); it is killed and reported as an infrastructure problem
+			stallS := envInt("VERIF_STALL_S", map[string]int{"quick": 900, "thorough": 5400}[tier])
+			var current atomic.Int64
+			current.Store(-1)
+			beat := make(chan struct{}, 1)
+			stopDog := make(chan struct{})
+			go func() {
+				t := time.NewTimer(time.Duration(stallS) * time.Second)
+				defer t.Stop()
+				for {
+					select {
+					case <-beat:
+						if !t.Stop() {
+							select {
+							case <-t.C:
+							default:
+							}
+						}
+						t.Reset(time.Duration(stallS) * time.Second)
+					case <-t.C:
+						a.Lock()
+						a.infra = append(a.infra, fmt.Sprintf("worker %d reported nothing for %d s while running scenario %d: killed (a thread is blocked outside the scheduler's control)", i, stallS, current.Load()))
+						a.Unlock()
+						c.Process.Kill()
+						return
+					case <-stopDog:
+						return
+					}
+				}
+			}()
+			defer close(stopDog)
 			for sc.Scan() {
+				select {
+				case beat <- struct{}{}:
+				default:
+				}
 				line := sc.Bytes()
 				if len(line) == 0 || line[0] != '{' {
 					continue
@@ -228,6 +267,12 @@ func master() int {
 				}
 				if _, ok := probe["done"]; ok {
 					sawDone = true
+					continue
+				}
+				if st, ok := probe["start"]; ok {
+					var idx int64
+					json.Unmarshal(st, &idx)
+					current.Store(idx)
 					continue
 				}
 				if _, ok := probe["capped"]; ok {
